@@ -1,7 +1,7 @@
 (* Properties/C01.v -- Encode -> symbol -> decode returns exactly the original bytes (what is a theorem so far). *)
 From Coq Require Import Arith ZArith NArith List Bool.
 From DM Require Import Spec.Stream16022 Proofs.EncAB Proofs.EncAscii Proofs.PlanAscii Proofs.EncB256 Model.Planner Generated.Symbols Generated.ModeTables Model.PlannerRun Spec.GF256 Model.Outcome Model.SymbolList Model.RSEnc Model.Dec Model.Enc Model.Api
-  Proofs.Pipeline Proofs.EncAX.
+  Proofs.Pipeline Proofs.EncAX Proofs.EncAC.
 Import ListNotations.
 
 (* Symbol layer (full): for every size, whatever data codewords the data encoder produced (any byte vector of
@@ -142,6 +142,38 @@ Theorem C01_fnc1_ax_roundtrip : forall sorter data symbols modes use_macros cw s
 Proof. intros so d sy mo um cw s HS HM OK H. exact (proj2 (fnc1_ax_roundtrip so d sy mo um cw s HS HM OK H)). Qed.
 Print Assumptions C01_fnc1_ax_roundtrip.
 
+(* ... and for EVERY plan that uses only ASCII and C40 (text = false), or only ASCII and Text (text = true), whatever its switch
+   positions: the values pending at the end of a run are flushed with Shift 2 / Upper Shift padding or, in the standard's
+   end-of-data cases, handed back to ASCII, which leaves the already written shift values of the last character behind as a
+   legal fill; a run ends the symbol without Unlatch exactly when nothing or one ASCII-encoded codeword follows and the symbol
+   is then full (Proofs/EncAC.v).  With the crate's optimiser this covers the mode sets {C40}, {ASCII, C40}, {Text},
+   {ASCII, Text}, with a Macro 05/06 envelope or an FNC1 start as well *)
+Theorem C01_ac_modes_roundtrip : forall (text : bool) sorter data symbols modes cw s,
+  (forall k l l', sorter symbols k l = Ok l' -> incl l' l) ->
+  (forall mo, enabled modes mo = true -> mo = Ascii \/ mo = (if text then Text else C40)) -> bytes_ok data = true ->
+  encode_data_internal (optimize_fn sorter) data symbols None modes false false = Ok (cw, s) ->
+  decode_data cw = Ok data.
+Proof. intros t so d sy mo cw s HS HM OK H. exact (proj2 (ac_modes_roundtrip t so d sy mo cw s HS HM OK H)). Qed.
+Print Assumptions C01_ac_modes_roundtrip.
+
+Theorem C01_macro_ac_roundtrip : forall (text : bool) sorter data symbols modes body m head cw s,
+  (forall k l l', sorter symbols k l = Ok l' -> incl l' l) ->
+  (forall mo, enabled modes mo = true -> mo = Ascii \/ mo = (if text then Text else C40)) -> bytes_ok body = true ->
+  (m = MACRO05 /\ head = MACRO05_HEAD) \/ (m = MACRO06 /\ head = MACRO06_HEAD) ->
+  data = head ++ body ++ MACRO_TRAIL ->
+  encode_data_internal (optimize_fn sorter) data symbols None modes true false = Ok (cw, s) ->
+  decode_data cw = Ok data.
+Proof. intros t so d sy mo b m h cw s HS HM OK HH HD H. exact (proj2 (macro_ac_roundtrip t so d sy mo b m h cw s HS HM OK HH HD H)). Qed.
+Print Assumptions C01_macro_ac_roundtrip.
+
+Theorem C01_fnc1_ac_roundtrip : forall (text : bool) sorter data symbols modes use_macros cw s,
+  (forall k l l', sorter symbols k l = Ok l' -> incl l' l) ->
+  (forall mo, enabled modes mo = true -> mo = Ascii \/ mo = (if text then Text else C40)) -> bytes_ok data = true ->
+  encode_data_internal (optimize_fn sorter) data symbols None modes use_macros true = Ok (cw, s) ->
+  decode_data cw = Ok data.
+Proof. intros t so d sy mo um cw s HS HM OK H. exact (proj2 (fnc1_ac_roundtrip t so d sy mo um cw s HS HM OK H)). Qed.
+Print Assumptions C01_fnc1_ac_roundtrip.
+
 
 (* non-vacuity: with {ASCII, Base256} the optimiser really mixes the two (ASCII, a Base256 field, ASCII digits) *)
 Example C01_ascii_base256_example :
@@ -152,3 +184,14 @@ Proof. vm_compute. reflexivity. Qed.
 (* NOT a theorem for the other plans: decode_data (data codewords of encode) = Ok input under arbitrary plans of the
    optimiser (the encoder side of C02 for C40/Text/X12/EDIFACT/Base256 runs).  The check evaluates it on every case:
    encode, decode both ways, compare with the input. *)
+
+(* the hypotheses of the theorems for {ASCII, X12}, {ASCII, C40} and {ASCII, Text} are satisfiable, and the runs they speak about occur:
+   plans that really switch into the second mode, streams with its latch, the round trip *)
+Example C01_ax_ac_examples :
+  (match encode_data_internal (optimize_fn stable_sorter) [65; 66; 67; 49; 50; 51; 65; 66; 67; 13; 42; 62; 104; 105] sl_default None 9 false false with
+   | Ok (cw, _) => In 238 cw /\ decode_data cw = Ok [65; 66; 67; 49; 50; 51; 65; 66; 67; 13; 42; 62; 104; 105] | _ => False end) /\
+  (match encode_data_internal (optimize_fn stable_sorter) [65; 66; 67; 68; 69; 70; 71; 72; 73; 74; 32; 75; 76; 77; 200] sl_default None 3 false false with
+   | Ok (cw, _) => In 230 cw /\ decode_data cw = Ok [65; 66; 67; 68; 69; 70; 71; 72; 73; 74; 32; 75; 76; 77; 200] | _ => False end) /\
+  (match encode_data_internal (optimize_fn stable_sorter) [97; 98; 99; 100; 101; 102; 103; 104; 105; 106; 32; 107; 108; 65] sl_default None 5 false false with
+   | Ok (cw, _) => In 239 cw /\ decode_data cw = Ok [97; 98; 99; 100; 101; 102; 103; 104; 105; 106; 32; 107; 108; 65] | _ => False end).
+Proof. vm_compute. repeat split; auto 20. Qed.
